@@ -45,7 +45,7 @@ CONTS = [' 1', ' * from t', '\n x', ' a.b', ';', '', ' /*c*/ x', ' x;',
          # statement is typed by the keyword behind its definitions
          ' x select 1', ' t insert into u values (1)', ' a, b select 2',
          ' x as (select 1) select 2', ' t update u set a = 1',
-         ' a delete from t']
+         ' a delete from t', '@@version', '@v := 1', ' @x']
 D18_CONTS = ['(1)', ' .5', '.5', '(select 1)', ' . x', '.x']
 
 
@@ -148,6 +148,44 @@ def sweep_case(ctx, words, rng):
     ctx.rec.hist('expected', want if want == 'UNKNOWN' else 'DML/DDL')
 
 
+def script_case(ctx, rng, gen):
+    """2-4 statements in one input: every statement's type is judged (state
+    must not leak from one statement into the typing of the next)."""
+    rec = ctx.rec
+    n = rng.choice([2, 2, 3, 4])
+    stmts = [gen.statement() for _ in range(n)]
+    layout = grammar.Layout(rng, ws=rng.choice(['single', 'mixed']),
+                            comments=rng.choice([0, 0.1]),
+                            kwcase=rng.choice(['upper', 'lower', 'mixed']),
+                            inner=rng.choice(['single', 'mixed']))
+    sc = grammar.Script(stmts, layout, rng, final_semicolon=True)
+    rec.case()
+    try:
+        parsed = sqlparse.parse(sc.text)
+    except Exception:
+        rec.count('exception_(C07)')
+        return
+    if len(parsed) != n:
+        rec.count('statement_count_mismatch_(C05)')
+        return
+    rec.monitor('get_type_grammar')
+    for i, (st, p) in enumerate(zip(stmts, parsed)):
+        want = ' '.join(st.stype.upper().split())
+        try:
+            got = p.get_type()
+        except Exception as exc:
+            got = 'EXC %r' % (exc,)
+        if got != want:
+            rec.violation('get_type', {'text': sc.text, 'statement': i,
+                                       'expected': want},
+                          'statement %d of a %d-statement script (%r...) has '
+                          'get_type() %r, expected %r' % (
+                              i, n, str(p).strip()[:50], got, want),
+                          key=('multi', want, got))
+            break
+    rec.nontrivial(('script', tuple(s.kind for s in stmts)))
+
+
 def grammar_case(ctx, rng, gen):
     st = gen.statement()
     layout = grammar.Layout(
@@ -189,13 +227,23 @@ def shard(ctx):
     k = 0
     while ctx.running():
         k += 1
-        if k % 3 == 0:
+        if k % 9 == 0:
+            script_case(ctx, rng, gen)
+        elif k % 3 == 0:
             grammar_case(ctx, rng, gen)
         else:
             sweep_case(ctx, words, rng)
 
 
 def replay(ctx, kind, case):
+    if 'statement' in case:
+        p = sqlparse.parse(case['text'])
+        i = case['statement']
+        got = p[i].get_type() if i < len(p) else None
+        if got != case['expected']:
+            ctx.rec.violation(kind, case, 'replay: statement %d has type %r, '
+                              'expected %r' % (i, got, case['expected']))
+        return
     judge(ctx, 'get_type_keyword_sweep', case['text'], case['expected'],
           case)
 
